@@ -118,6 +118,14 @@ def pool(objectives, shapes=("plain", "optional", "select", "variable", "buffer"
             bf = b.buffer("Bf", initial=1, lower=0)
             b.unload(a, bf, 1)
             b.load(c, bf, 2)
+        elif shape == "all-optional":
+            # every task may be left out: the best makespan is 0 (nothing scheduled), never a negative date
+            a = b.task("A", "F", dur=2, priority=2, optional=True)
+            c = b.task("B", "F", dur=1, optional=True)
+            w = b.worker("W")
+            b.require(a, worker=w)
+            b.require(c, worker=w)
+            ws = [w]
         elif shape == "buffer-final":
             a, c, w = _two_on_worker(b)
             ws = [w]
@@ -140,11 +148,11 @@ def pool(objectives, shapes=("plain", "optional", "select", "variable", "buffer"
             w = b.worker("W", cost=1)
             b.require(a, worker=w)
             ws = [w]
-        if on == "cost" and shape in ("plain", "optional", "buffer", "infeasible", "buffer-final", "free-horizon"):
+        if on == "cost" and shape in ("plain", "optional", "buffer", "infeasible", "buffer-final", "free-horizon", "all-optional"):
             continue
         if on in ("max_buffer", "min_buffer") and shape not in ("buffer", "buffer-final"):
             continue
-        if on in ("min_lateness", "min_tardiness", "min_earliness") and shape in ("optional", "infeasible"):
+        if on in ("min_lateness", "min_tardiness", "min_earliness") and shape in ("optional", "infeasible", "all-optional"):
             continue   # (an extremum over an unscheduled task is an open corner)
         if on in ("two_min", "two_max", "two_min_w0") and shape == "single":
             continue
